@@ -309,6 +309,14 @@ def jobs(tier, seed):
             for elabel, d in hist.knob_edits(start):
                 out.append({"start": start, "first": (elabel, d), "depth": 1, "cfg": "clean",
                             "targets": TARGETS[fam], "clean_tool": False})
+        # the user overwrites a queued output while the cleanup pass of the rebuild runs
+        if fam == "f_chain":
+            dropped = {"fam": fam, "knobs": {"b": 0, "c": 0}}
+            out.append({"part": "race", "start": start, "first": ("b=0,c=0", dropped), "paths": ["b.txt", "c.txt"]})
+        if fam == "f_vol":
+            dropped = {"fam": fam, "knobs": {"present": 0}}
+            out.append({"part": "race", "start": start, "first": ("present=0", dropped),
+                        "paths": ["out/deep/o.txt", "out/log.txt"]})
         # the rebuild after each single plan edit, drained at any point
         for elabel, d in hist.knob_edits(start):
             out.append({"part": "drain", "start": start, "first": (elabel, d), "cfg": "clean"})
@@ -410,7 +418,71 @@ def run_drain(spec, acc):
     explore(run, 1, visit)
 
 
+def race_events(paths):
+    def env(sim):
+        from ..harness import EnvEvent
+
+        if sim.handler is None or "raced" in sim.flags:
+            return []
+        # only once the build is over and the cleanup pass has been announced
+        if not any(r[0] == "DIRECTOR" and r[1].startswith("Trying to remove") for r in sim.reports):
+            return []
+        evs = []
+        for path in paths:
+            if sim.world.exists(path):
+                def fn(s, path=path):
+                    s.flags.add("raced")
+                    s.ext_write(path, f"the user's own text, written at event {s.nev}\n")
+                evs.append(EnvEvent(f"user overwrites {path}", fn))
+        return evs
+    return env
+
+
+def run_race(spec, acc):
+    """While the cleanup pass of a build runs (several files queued), the user overwrites one of
+    the queued outputs at any quiescent point (one deviation). What the user wrote must survive:
+    either the file is kept, or it had already been removed before the user wrote."""
+    from ..explore import explore
+
+    fam = spec["start"]["fam"]
+    descs = [spec["start"], spec["first"][1]]
+
+    def run(prefix):
+        world, obs_list, tracker, removed = run_hist(descs, "clean", None, prefix,
+                                                     {"env_events": race_events(spec["paths"])})
+        try:
+            last = obs_list[-1]
+            last.removed = removed[-1] if len(removed) == len(descs) else []
+            last.writes = list(world.writes)
+            last.tracker = tracker
+            return last
+        finally:
+            world.destroy()
+            ROOT[0] = None
+
+    def visit(prefix, last):
+        acc.evaluations += 1
+        acc.transitions += last.nev
+        acc.states.add(h8([fam, "race", last.trace]))
+        if "raced" not in last.flags:
+            return
+        acc.nontrivial.add(h8([fam, "race", last.choices]))
+        acc.count("overwrites_during_cleanup")
+        gone = [r for r in last.removed if r.get("removed") and not r.get("isdir")]
+        for kind, rpath, msg in judge(gone, last.tracker, descs[-1], True, writes=last.writes):
+            acc.violation(f"C06|{fam}|race-{kind}|{rpath}",
+                          {"family": fam, "edit": spec["first"][0], "kind": kind, "what": msg,
+                           "exec": describe(last, 40)}, {"check": "C06", "descs": descs, "prefix": last.choices})
+        acc.outcomes.setdefault(h8([fam, "race", bool(gone)]), 1)
+
+    explore(run, 1, visit)
+
+
 def run_job(spec):
+    if spec.get("part") == "race":
+        acc = Acc()
+        run_race(spec, acc)
+        return acc
     if spec.get("part") == "drain":
         acc = Acc()
         run_drain(spec, acc)
